@@ -23,8 +23,11 @@ import (
 	"strconv"
 	"strings"
 	"sync"
+	"sync/atomic"
 	"testing"
 	"time"
+
+	"github.com/alicebob/miniredis/v2/server"
 
 	"verifharness/cw"
 	"verifharness/vh"
@@ -68,21 +71,95 @@ type prober struct {
 }
 
 func (p *prober) take() probe {
+	out, err := p.tryTake()
+	if err != nil {
+		p.w.T.Fatalf("probe: %v", err)
+	}
+	return out
+}
+
+func (p *prober) tryTake() (probe, error) {
 	ctx := p.w.Ctx
+	out := probe{}
 	st, err := p.w.RawStore.GetDeployStatus(ctx, app, entry)
 	if err != nil {
-		p.w.T.Fatalf("probe GetDeployStatus: %v", err)
+		return out, err
 	}
-	out := probe{}
 	for _, n := range p.nodes {
 		out.Status = append(out.Status, st[n])
 		wls, err := p.w.RawStore.ListWorkloads(ctx, app, entry, n, 0, nil)
 		if err != nil {
-			p.w.T.Fatalf("probe ListWorkloads: %v", err)
+			return out, err
 		}
 		out.Recorded = append(out.Recorded, len(wls))
 	}
+	return out, nil
+}
+
+// cmdProbe probes the deploy status before every command redis receives while a
+// store call of the deployment is in flight (redis backend; miniredis pre-hook).
+type cmdProbe struct {
+	mu      sync.Mutex
+	armed   bool
+	probing int32
+	probes  []probe
+	pr      *prober
+}
+
+func (c *cmdProbe) install(w *cw.World) {
+	if w.Redis == nil {
+		return
+	}
+	w.Redis.Server().SetPreHook(func(_ *server.Peer, _ string, _ ...string) bool {
+		c.mu.Lock()
+		armed := c.armed
+		c.mu.Unlock()
+		if !armed || !atomic.CompareAndSwapInt32(&c.probing, 0, 1) {
+			return false
+		}
+		p, err := c.pr.tryTake()
+		atomic.StoreInt32(&c.probing, 0)
+		if err == nil {
+			c.mu.Lock()
+			c.probes = append(c.probes, p)
+			c.mu.Unlock()
+		}
+		return false
+	})
+}
+func (c *cmdProbe) arm() {
+	c.mu.Lock()
+	c.armed, c.probes = true, nil
+	c.mu.Unlock()
+}
+func (c *cmdProbe) disarm() []probe {
+	c.mu.Lock()
+	defer c.mu.Unlock()
+	c.armed = false
+	out := c.probes
+	c.probes = nil
 	return out
+}
+
+// sibling applications / entrypoints whose names share a prefix with (app, web):
+// their records and markers must never count for (app, web)
+var siblings = [][2]string{{"app", "web2"}, {"app", "web-canary"}, {"app2", "web"}, {"ap", "web"}, {"app", "we"}}
+
+func addSiblings(w *cw.World, nodes []string, rng func(int) int, tag string) {
+	for i, sb := range siblings {
+		n := 1 + rng(2)
+		for j := 0; j < n; j++ {
+			node := nodes[rng(len(nodes))]
+			id := fmt.Sprintf("sib-%s-%d-%d", tag, i, j)
+			wl := &types.Workload{ID: id, Name: fmt.Sprintf("%s_%s_%s", sb[0], sb[1], id), Nodename: node, Podname: "p1"}
+			if err := w.RawStore.AddWorkload(w.Ctx, wl, nil); err != nil {
+				w.T.Fatalf("sibling workload: %v", err)
+			}
+		}
+		if rng(2) == 0 {
+			_ = w.RawStore.CreateProcessing(w.Ctx, &types.Processing{Appname: sb[0], Entryname: sb[1], Nodename: nodes[rng(len(nodes))], Ident: "sib" + tag}, 1+rng(3))
+		}
+	}
 }
 
 type marker struct {
@@ -155,7 +232,7 @@ type planEntry struct {
 }
 
 func emit(r *vh.Run, backend, stream, ident string, nodes []string, plan []planEntry, d0 []dkey, m0 []marker,
-	calls []call, probes []probe, left []marker, extra map[string]any) {
+	calls []call, probes []probe, intra [][]probe, left []marker, extra map[string]any) {
 	b := "Etcd"
 	if backend == "redis" {
 		b = "Redis"
@@ -183,8 +260,25 @@ func emit(r *vh.Run, backend, stream, ident string, nodes []string, plan []planE
 			markersLeft = true
 		}
 	}
-	term := fmt.Sprintf("(mkCase %s %s %s %s %s %s %s %s %s)", b, vh.Str(ident), vh.StrList(nodes), vh.List(pl),
-		initTerm(d0, m0), vh.List(ct), vh.List(res), vh.List(pt), vh.Bool(markersLeft))
+	it := make([]string, len(calls))
+	nIntra := 0
+	for i := range calls {
+		rows := []string{}
+		if i < len(intra) {
+			for _, p := range intra[i] {
+				row := make([]string, len(nodes))
+				for j := range nodes {
+					row[j] = vh.Pair(vh.ZI(p.Status[j]), vh.ZI(p.Recorded[j]))
+				}
+				rows = append(rows, vh.List(row))
+				nIntra++
+			}
+		}
+		it[i] = vh.List(rows)
+	}
+	r.Count(fmt.Sprintf("intra_probes>0=%v", nIntra > 0))
+	term := fmt.Sprintf("(mkCase %s %s %s %s %s %s %s %s %s %s)", b, vh.Str(ident), vh.StrList(nodes), vh.List(pl),
+		initTerm(d0, m0), vh.List(ct), vh.List(res), vh.List(pt), vh.List(it), vh.Bool(markersLeft))
 	injected, removes, adds := 0, 0, 0
 	for _, c := range calls {
 		if c.Inj {
@@ -248,6 +342,9 @@ func storeStream(t *testing.T) {
 		}
 		w, nodes := newWorld(t, backend)
 		pr := &prober{w: w, nodes: nodes}
+		addSiblings(w, nodes, rng.Intn, fmt.Sprintf("s%d", wno))
+		cp := &cmdProbe{pr: pr}
+		cp.install(w)
 		ctx := w.Ctx
 		st := w.RawStore
 		mkWl := func(node, id string) *types.Workload {
@@ -269,8 +366,10 @@ func storeStream(t *testing.T) {
 			d0, m0 := pr.deployed(), pr.markers()
 			calls := []call{}
 			probes := []probe{pr.take()}
+			intra := [][]probe{}
 			do := func(c call) bool {
 				var err error
+				cp.arm()
 				if c.Inj {
 					err = errors.New("injected")
 				} else {
@@ -286,6 +385,7 @@ func storeStream(t *testing.T) {
 						err = st.DeleteProcessing(ctx, p)
 					}
 				}
+				intra = append(intra, cp.disarm())
 				c.OK = err == nil
 				calls = append(calls, c)
 				probes = append(probes, pr.take())
@@ -350,7 +450,7 @@ func storeStream(t *testing.T) {
 				}
 				do(call{Kind: "CDelProc", Node: plan[pi].Node, Inj: rng.Intn(15) == 0})
 			}
-			emit(r, backend, "store", ident, nodes, plan, d0, m0, calls, probes, pr.markers(), nil)
+			emit(r, backend, "store", ident, nodes, plan, d0, m0, calls, probes, intra, pr.markers(), nil)
 			done++
 			// remove what this deployment left so that the next one starts clean of its ident
 			for _, m := range pr.markers() {
@@ -372,9 +472,11 @@ type probeStore struct {
 	store.Store
 	mu      sync.Mutex
 	pr      *prober
+	cp      *cmdProbe
 	on      bool
 	calls   []call
 	probes  []probe
+	intra   [][]probe
 	ident   string
 	injKind string
 	injOrd  int
@@ -396,12 +498,14 @@ func (s *probeStore) rec(kind, node, id string, count int, ident string, f func(
 	ord := s.seen[kind]
 	s.seen[kind] = ord + 1
 	var err error
+	s.cp.arm()
 	if s.injKind == kind && s.injOrd == ord {
 		c.Inj = true
 		err = errInjected
 	} else {
 		err = f()
 	}
+	s.intra = append(s.intra, s.cp.disarm())
 	c.OK = err == nil
 	s.calls = append(s.calls, c)
 	s.probes = append(s.probes, s.pr.take())
@@ -439,7 +543,10 @@ func deployStream(t *testing.T) {
 		}
 		w, nodes := newWorld(t, backend)
 		pr := &prober{w: w, nodes: nodes}
-		ps := &probeStore{Store: w.Store, pr: pr, seen: map[string]int{}}
+		addSiblings(w, nodes, rng.Intn, fmt.Sprintf("d%d", wno))
+		cp := &cmdProbe{pr: pr}
+		cp.install(w)
+		ps := &probeStore{Store: w.Store, pr: pr, cp: cp, seen: map[string]int{}}
 		w.C.VerifSetStore(ps)
 		for dep := 0; dep < 8 && done < total; dep++ {
 			if rng.Intn(4) == 0 {
@@ -448,7 +555,7 @@ func deployStream(t *testing.T) {
 			d0, m0 := pr.deployed(), pr.markers()
 			w.IC.Reset()
 			ps.mu.Lock()
-			ps.on, ps.calls, ps.probes, ps.ident, ps.seen = true, nil, []probe{pr.take()}, "", map[string]int{}
+			ps.on, ps.calls, ps.probes, ps.intra, ps.ident, ps.seen = true, nil, []probe{pr.take()}, nil, "", map[string]int{}
 			ps.injKind, ps.injOrd = "", 0
 			fault := "none"
 			switch rng.Intn(9) {
@@ -504,7 +611,7 @@ func deployStream(t *testing.T) {
 			w.Quiesce()
 			ps.mu.Lock()
 			ps.on = false
-			calls, probes, ident := append([]call{}, ps.calls...), append([]probe{}, ps.probes...), ps.ident
+			calls, probes, intra, ident := append([]call{}, ps.calls...), append([]probe{}, ps.probes...), append([][]probe{}, ps.intra...), ps.ident
 			ps.mu.Unlock()
 			w.IC.SetFault(nil)
 			// the plan: counts from the CreateProcessing calls; planned nodes that
@@ -526,7 +633,7 @@ func deployStream(t *testing.T) {
 			if ident == "" {
 				ident = "none"
 			}
-			emit(r, backend, "deploy", ident, nodes, plan, d0, m0, calls, probes, pr.markers(),
+			emit(r, backend, "deploy", ident, nodes, plan, d0, m0, calls, probes, intra, pr.markers(),
 				map[string]any{"fault": fault, "strategy": strategy, "count": opts.Count, "messages": msgs, "failed_messages": failed})
 			r.Count("fault=" + fault)
 			done++
